@@ -387,7 +387,15 @@ const COUNTS4: &[usize] = &[0, 1, 2, 63, 64, 65, 300];
 fn rec_list(rng: &mut Rng, k: usize) -> Vec<Vec<u8>> {
     let edge = 255 / k;
     let n = match rng.below(6) { 0 => 0, 1 => 1, 2 => edge, 3 => edge + 1, 4 => rng.usize(0, 4), _ => rng.usize(0, 3 * edge) };
-    (0..n).map(|_| rng.bytes(k)).collect()
+    // one time in four elements repeat earlier ones (adjacent or apart): a list attribute is a sequence, a decoder
+    // must not merge, sort or drop repeated values (round-5 seed: LARGE_COMMUNITIES de-duplicated on parse)
+    let dup = rng.chance(1, 4);
+    let mut v: Vec<Vec<u8>> = Vec::with_capacity(n);
+    for i in 0..n {
+        if dup && i > 0 && rng.chance(1, 2) { let j = if rng.chance(1, 2) { i - 1 } else { rng.usize(0, i - 1) }; let e = v[j].clone(); v.push(e); }
+        else { v.push(rng.bytes(k)); }
+    }
+    v
 }
 fn u32_list(rng: &mut Rng) -> Vec<u32> {
     let n = if rng.chance(1, 2) { *rng.pick(COUNTS4) } else { rng.usize(0, 130) };
